@@ -381,3 +381,18 @@ def rule_re_flag_pos(repo, res):
                                 "the text is left as it was (dash continuations beyond the eighth are not joined)",
                                 where=f"pvl/{mname}.py:{call.lineno}"))
     res.floor("re.sub / re.subn / re.split calls in the package", n, 2)
+
+
+def rule_f2d(repo, res):
+    """F2d: decode_by_char returns the decoded text as it is: no replace / strip / translate / case method is applied to
+    the decoded pieces (a per-piece `replace("\\r", "\\n")` turns every CR LF into two line ends: every line number after the
+    first line of a CR LF label read from a byte stream is wrong)."""
+    fn = repo.full_function("__init__", "decode_by_char")
+    bad = [x for x in ast.walk(fn) if isinstance(x, ast.Call) and isinstance(x.func, ast.Attribute)
+           and x.func.attr in ("replace", "strip", "lstrip", "rstrip", "translate", "lower", "upper", "expandtabs", "splitlines")]
+    res.oblige("F2d", "decode_by_char applies no text-changing method to what it decodes", ok=not bad)
+    for x in bad:
+        res.add(Finding("F2d", "__init__.decode_by_char", f"`{norm(x, 50)}`",
+                        f"decode_by_char changes the decoded text with `{norm(x, 60)}`: the byte-stream entry points then hand the parser "
+                        "another text than the path and string entry points (line ends doubled or dropped: wrong line numbers, values of "
+                        "multi-line strings changed)", where=f"pvl/__init__.py:{x.lineno}"))
